@@ -30,3 +30,8 @@ python3 tools/derive_unit.py contracts/C02/optimise.toml contracts/C01/optimise.
   --not-covered "Filter::resolve / resolve_idx (SelfUuid resolution, slope annotation) around optimise; see the C01 units for filter2idl and the entry-level test"
 python3 tools/derive_unit.py contracts/C08/consumer_apply.toml contracts/C09/consumer_apply.toml C09 consumer_apply 'applied_ok' \
   --not-covered "what incremental_apply and the plugins then do; Entry::merge_state's tombstone arms (unit merge_state), the supplier side (unit supplier_supply), reap / trim timing (C26 units); the induction from 'every incoming state is merged and written, none filtered out' to 'no schedule resurrects a deleted entry'"
+for spec in "C16 P_REFINT\(\)\)" "C17 P_MEMBEROF" "C20 P_BASE" "C21 P_GIDNUMBER" "C22 P_SPN" "C36 P_SESSION"; do
+  set -- $spec
+  python3 tools/derive_unit.py contracts/C19/plugin_dispatch.toml contracts/$1/plugin_dispatch.toml $1 plugin_dispatch "$2" \
+    --not-covered "that the server's write paths call these dispatchers at the right points; what each hook does (the other units of this property)"
+done
